@@ -110,15 +110,21 @@ def gen_batch(r, bi, services=False, can=False, n_random=(6, 9), out_of_order=Tr
             add(nm, [("v", 0, ("u", w)), ("w", 1, ("i", min(64 - w, 11)))])
             bus = buses[k % len(buses)]
             idv = r.choice([x for x in range(0, 2048) if x not in ids])
+            if nm.startswith("Cn") and can_bindings and can_bindings[0][2] != bus:
+                idv = can_bindings[0][1]  # the SAME frame id as the first binding, on another bus
             ids.append(idv)
             decls.append({"kind": "impl", "protocol": "can", "type": nm, "name": None, "items": [("field", "id", idv), ("field", "bus", ("s", bus))]})
             can_bindings.append((nm, idv, bus))
             k += 1
+    non_can = None
     if can and can_bindings:
         # a LATER binding of another protocol for a struct that already has a CAN binding, under the same
         # (default) name: bindings are identified by (name, protocol)
         s0 = can_bindings[r.randrange(min(3, len(can_bindings)))][0]
-        decls.append({"kind": "impl", "protocol": r.choice(["uart", "lin"]), "type": s0, "name": None, "items": [("field", "id", r.randint(1, 200))]})
+        nc_bus = can_bindings[0][2]
+        nc_id = next(x for x in range(300, 2047) if all(x != i for _, i, _ in can_bindings))
+        decls.append({"kind": "impl", "protocol": r.choice(["uart", "lin"]), "type": s0, "name": None, "items": [("field", "id", nc_id), ("field", "bus", ("s", nc_bus))]})
+        non_can = (nc_id, nc_bus)
     nobus = None
     if can:
         # a CAN binding that declares no bus (outside C18's quantifier, but part of real schemas): frames
@@ -137,4 +143,7 @@ def gen_batch(r, bi, services=False, can=False, n_random=(6, 9), out_of_order=Tr
         ]})
     if nobus is not None:
         can_bindings.append(("<no-bus>", nobus, None))
+    if can and non_can is not None:
+        # (id, bus) of a binding of ANOTHER protocol: no CAN frame matches it
+        can_bindings.append(("<non-can>", non_can[0], non_can[1]))
     return decls, can_bindings
